@@ -41,11 +41,11 @@ def run_history(ctx, seed):
     rng = random.Random(seed)
     proto = rng.choice([3, 4])
     pw = PoolWorld(seed, proto, K=K, thr=THR, nodes=1, p_preempt=rng.choice([0.0, 0.1, 0.3, 0.5]), never_convict=rng.random() < 0.3,
-                   chunking=rng.random() < 0.2)
+                   chunking=rng.random() < 0.2, timer_thread=rng.random() < 0.6)
     env, world, net, plan = pw.env, pw.world, pw.net, pw.plan
     viol = pw.viol
     steps_log = []
-    info = {'seed': seed, 'proto': proto, 'rounds': 0}
+    info = {'seed': seed, 'proto': proto, 'rounds': 0, 'timer_thread': pw.timer_thread}
     with env:
         session = pw.start()
         rec = pw.rec
@@ -62,7 +62,15 @@ def run_history(ctx, seed):
             uid[0] += 1
             u = uid[0]
             kinds[u] = kind
-            plan.set(u, {'rows': 'rows', 'hold': 'hold', 'late': 'hold', 'silent': 'silent'}[kind])
+            plan.set(u, {'rows': 'rows', 'hold': 'hold', 'late': 'hold', 'edge': 'hold', 'silent': 'silent'}[kind])
+            if kind == 'edge':
+                # the node's answer leaves at (about) the moment the client timeout fires: response and timeout race
+                def answer(u=u):
+                    for h in pw.open_held():
+                        if pw.uid_of_held(h) == u:
+                            h.release()
+                world.add_timer(timeout + rng.choice([-3e-6, -1e-6, 0.0, 1e-6, 3e-6, 1e-5]), answer, label='node-answer')
+                info['edge'] = info.get('edge', 0) + 1
             observe_replacement()
             started_after[u] = frozenset(replaced)
             steps_log.append(('send', u, kind, timeout))
@@ -82,7 +90,17 @@ def run_history(ctx, seed):
             """k >= THR timeouts on the current connection while 0-1 other requests stay pending"""
             info['rounds'] += 1
             pend = rng.choice([0, 1, 1])
-            order = ['t'] * THR + ['p'] * pend
+            if rng.random() < 0.6:
+                # first a few requests whose answers leave the node at about the client timeout: each ends answered, orphaned-and-released, or - when the
+                # answer slips between the two steps of the timeout handling - in whatever state the driver leaves it
+                for _ in range(rng.randint(1, 4)):
+                    send('edge', SHORT)
+                world.advance_to(world.now + SHORT + 0.05)
+                world.settle(advance=False)
+            with world.inspect():
+                cur = pool._connection
+                have = len(cur.orphaned_request_ids) if cur is not None else 0
+            order = ['t'] * max(1, THR - have) + ['p'] * pend
             rng.shuffle(order)
             for o in order:
                 if o == 't':
@@ -269,6 +287,9 @@ def run(ctx):
         ctx.count("replaced_connections_checked_for_closure", info.get('replaced_conns_checked', 0))
         ctx.count("connections_seen_in_trash", info['trashed'])
         ctx.count("late_responses", info['late'])
+        ctx.count("answers_racing_the_client_timeout", info.get('edge', 0))
+        if info.get('timer_thread'):
+            ctx.count("histories_with_timeouts_on_a_timer_thread")
         ctx.count("threshold_not_reached", info.get('threshold_not_reached', 0))
         ctx.count("invariant_evaluations_under_lock", info['online_checks'])
         if info.get('duplicate_replacement_requests'):
